@@ -43,8 +43,8 @@ type Input struct {
 	// "" the handle itself | session Session(&Session{}) | with_context WithContext(ctx)
 	// Wrap: begin = the chain becomes a handle (Session) and the finisher runs on handle.Begin(),
 	// which is rolled back afterwards
-	Wrap     string `json:"wrap,omitempty"`
-	ReadKind string `json:"read_kind,omitempty"`
+	Wrap      string `json:"wrap,omitempty"`
+	ReadKind  string `json:"read_kind,omitempty"`
 	AfterRead string `json:"after_read,omitempty"`
 	// Target: how the rows' table / model value reach the finisher.
 	//  "" (model): Model(&T{ID:pk}) + finisher, Delete(&T{ID:pk})
@@ -375,7 +375,9 @@ func (e *env) run(in Input) Obs {
 		tx = tx.Session(&gorm.Session{}).Begin()
 		// (single connection: the state is read through the transaction, which is rolled back
 		// before run returns)
-		dumpDB = tx.Session(&gorm.Session{NewDB: true})
+		// (a fresh, never dry handle bound to the transaction's connection)
+		dumpDB = db.Session(&gorm.Session{NewDB: true, Context: context.Background()})
+		dumpDB.Statement.ConnPool = tx.Statement.ConnPool
 		defer tx.Rollback()
 	}
 	rec.Reset()
